@@ -789,6 +789,28 @@ func Build(s *Scenario) (*Chain, error) {
 							sg[len(sg)-1] ^= 0x01
 							cp.ExtIDs[2] = sg
 							x.Auth = "RecoveryByteAltered"
+						case strings.HasPrefix(se.Mut, "ws:"):
+							// the same JSON value written differently (insignificant whitespace): other bytes, other entry
+							// hash, signature of the original bytes -> not signed by anybody
+							cb := string(cp.Content)
+							switch strings.TrimPrefix(se.Mut, "ws:") {
+							case "lead":
+								cb = " " + cb
+							case "trail":
+								cb = cb + "\n"
+							case "colon":
+								cb = strings.Replace(cb, ":", ": ", 1)
+							case "comma":
+								cb = strings.Replace(cb, ",", ", ", 1)
+							case "inner":
+								cb = strings.Replace(cb, "{", "{ ", 1)
+							case "tab":
+								cb = strings.Replace(cb, "[", "[\t", 1)
+							default:
+								return nil, fmt.Errorf("h=%d entry %s: unknown whitespace variant %q", h, se.ID, se.Mut)
+							}
+							cp.Content = []byte(cb)
+							x.Auth = "ContentRewritten"
 						case strings.HasPrefix(se.Mut, "flip:"):
 							pp := strings.Split(se.Mut, ":")
 							bit, _ := strconv.Atoi(pp[2])
